@@ -22,6 +22,7 @@ def parseWsOp (t : Tree) : Option Op :=
   match t with
   | .node "CON" [.atom d, .atom n] => some (.connect (d == "ok") (n == "ok"))
   | .atom "DIS" => some .disconnect
+  | .node "DIS" [.atom _] => some .disconnect      -- `DIS(silent)`: the peer does not answer the close frame; the same step for the model
   | .node "REC" [.atom d, .atom n] => some (.reconnect (d == "ok") (n == "ok"))
   -- third atom `abn`: the replaced session's peer drops the connection on the close frame; the same step for the model
   | .node "REC" [.atom d, .atom n, .atom _] => some (.reconnect (d == "ok") (n == "ok"))
@@ -54,6 +55,10 @@ def opWSEQ (args obs : List String) : Option DecOut :=
       | none => { acc with corr := acc.corr ++ [s!"unparsable op {p.1}"] }
       | some op =>
         let (st', out) := step acc.st op
+        -- `DIS(silent)`: the close handshake is not answered, `Close` gives up at its deadline and reports that; the state is the model's
+        let out := match opT, acc.st.session with
+          | .node "DIS" [.atom "silent"], some i => if isOpen acc.st i then Out.err else out
+          | _, _ => out
         -- write-fault kind `z`: the peer's normal closure reaches the reader while the frame write is failing — for the
         -- model the failing send followed by the listener's normal end
         let endedInWrite := res.endsWith "+ended"
